@@ -1,210 +1,428 @@
 """C06 - pack/unpack pairs of glm/packing.hpp and glm/gtc/packing.hpp: re-pack identity, layout, quantisation, clamping, monotonicity."""
 from props.common import *
 LEVEL = 'proof'
-CLAIM = ("Every pack/unpack pair of glm/packing.hpp and glm/gtc/packing.hpp is executed symbolically from its clang IR. Per field of every normalised format the solver shows: "
-         "pack(unpack(p)) keeps every canonical code, unpack(pack(unpack(p))) == unpack(p) for every word, the packed code equals round(clamp(x)*scale) in IEEE binary32 semantics and (independently, "
-         "in exact widened arithmetic) lies within half a quantisation step of x, out-of-range values clamp to the end codes, packing is monotone, unpack is a faithful rounding of code/scale, "
-         "and component k sits in field k with component 0 in the least significant bits. Integer/half/double formats: pure layout and lossless round trips. Small-float (F2x11_1x10) and shared-exponent "
-         "(F3x9_E1x5) formats: decode value per code, truncation/rounding within one mantissa step, special codes and out-of-range behaviour; RGBM round trip in rounding-erased arithmetic.")
+CLAIM = ("Every pack/unpack pair of glm/packing.hpp and glm/gtc/packing.hpp is executed symbolically from its clang IR. Per field of every normalised format (incl. the packUnorm/packSnorm templates) the solver shows: "
+         "pack(unpack(p)) keeps every canonical code, unpack(pack(unpack(p))) == unpack(p) for every word, the packed code equals round(clamp(x)*scale) in IEEE semantics and (independently, "
+         "in exact widened arithmetic) lies within half a quantisation step of x, out-of-range values clamp to the end codes, packing is monotone, unpack is code/scale up to one ulp with exact end points, "
+         "and component k sits in field k with component 0 in the least significant bits. Integer/half/double formats: pure layout and lossless round trips. Small-float format F2x11_1x10: decode value per code, "
+         "truncation within one mantissa step against SMT-LIB to_fp(5,7)/(5,6), special codes, out-of-range behaviour, monotonicity. Shared-exponent format F3x9_E1x5: decode value per code and the pack/unpack "
+         "relations that are decidable with contract models of powf/log2f. RGBM: round trip and alpha quantisation in rounding-erased arithmetic.")
 F32 = z3.Float32(); F64 = z3.Float64()
+SPLIT_BITS = 9          # fields at least this wide: queries over a float component are split into its sign/exponent classes
+HS16_MAXEXP = 120       # independent half-step check of 16-bit fields: decided for biased exponents <= this (|x| < 2^-6)
 
 # ----------------------------------------------------------------------------- format tables (transcribed from the documentation, not from the code)
-# normalised formats: name -> (word ctype, [(bits, kind, scale)] first component first = least significant field)
-def _n(w, *f): return (w, list(f))
-U8 = (8, 'u', 255); S8 = (8, 's', 127); U16 = (16, 'u', 65535); S16 = (16, 's', 32767)
-NORM = {
-    'Unorm2x16': _n('uint32_t', U16, U16), 'Snorm2x16': _n('uint32_t', S16, S16), 'Unorm4x8': _n('uint32_t', U8, U8, U8, U8), 'Snorm4x8': _n('uint32_t', S8, S8, S8, S8),
-    'Unorm1x8': _n('uint8_t', U8), 'Unorm2x8': _n('uint16_t', U8, U8), 'Snorm1x8': _n('uint8_t', S8), 'Snorm2x8': _n('uint16_t', S8, S8),
-    'Unorm1x16': _n('uint16_t', U16), 'Unorm4x16': _n('uint64_t', U16, U16, U16, U16), 'Snorm1x16': _n('uint16_t', S16), 'Snorm4x16': _n('uint64_t', S16, S16, S16, S16),
-    'Snorm3x10_1x2': _n('uint32_t', (10, 's', 511), (10, 's', 511), (10, 's', 511), (2, 's', 1)),
-    'Unorm3x10_1x2': _n('uint32_t', (10, 'u', 1023), (10, 'u', 1023), (10, 'u', 1023), (2, 'u', 3)),
-    'Unorm2x4': _n('uint8_t', (4, 'u', 15), (4, 'u', 15)), 'Unorm4x4': _n('uint16_t', (4, 'u', 15), (4, 'u', 15), (4, 'u', 15), (4, 'u', 15)),
-    'Unorm1x5_1x6_1x5': _n('uint16_t', (5, 'u', 31), (6, 'u', 63), (5, 'u', 31)), 'Unorm3x5_1x1': _n('uint16_t', (5, 'u', 31), (5, 'u', 31), (5, 'u', 31), (1, 'u', 1)),
-    'Unorm2x3_1x2': _n('uint8_t', (3, 'u', 7), (3, 'u', 7), (2, 'u', 3)),
-}
-def offsets(fields):
-    o = 0; r = []
-    for (b, k, s) in fields: r.append(o); o += b
-    return r
+class Fmt:
+    """normalised format: fields = [(bits, kind 'u'|'s', scale)], first component first = least significant field; word=None: element-wise template"""
+    def __init__(s, nm, word, fields, pack=None, unpack=None, ft='float', ct=None):
+        s.nm = nm; s.word = word; s.fields = list(fields); s.L = len(s.fields); s.ft = ft; s.fw = 32 if ft == 'float' else 64; s.ct = ct
+        s.offs = []; o = 0
+        for (b, k, sc) in s.fields: s.offs.append(o); o += b
+        s.pack = pack or 'glm::pack' + nm; s.unpack = unpack or 'glm::unpack' + nm
+    def incode(s, i, k): return i[0][k] if s.word is None else fld(i[0][0], s.offs[k], s.fields[k][0])
+    def outcode(s, o, k, j=0): return o[j][k] if s.word is None else fld(o[0][j], s.offs[k], s.fields[k][0])
+    def wbits(s): return s.L * s.fields[0][0] if s.word is None else ct_bits(s.word)
 def fld(word, off, bits): return z3.Extract(off + bits - 1, off, word)
+U8 = (8, 'u', 255); S8 = (8, 's', 127); U16 = (16, 'u', 65535); S16 = (16, 's', 32767)
+NORM = {}
+def _n(nm, w, *f): NORM[nm] = Fmt(nm, w, f)
+_n('Unorm2x16', 'uint32_t', U16, U16); _n('Snorm2x16', 'uint32_t', S16, S16); _n('Unorm4x8', 'uint32_t', U8, U8, U8, U8); _n('Snorm4x8', 'uint32_t', S8, S8, S8, S8)
+_n('Unorm1x8', 'uint8_t', U8); _n('Unorm2x8', 'uint16_t', U8, U8); _n('Snorm1x8', 'uint8_t', S8); _n('Snorm2x8', 'uint16_t', S8, S8)
+_n('Unorm1x16', 'uint16_t', U16); _n('Unorm4x16', 'uint64_t', U16, U16, U16, U16); _n('Snorm1x16', 'uint16_t', S16); _n('Snorm4x16', 'uint64_t', S16, S16, S16, S16)
+_n('Snorm3x10_1x2', 'uint32_t', (10, 's', 511), (10, 's', 511), (10, 's', 511), (2, 's', 1)); _n('Unorm3x10_1x2', 'uint32_t', (10, 'u', 1023), (10, 'u', 1023), (10, 'u', 1023), (2, 'u', 3))
+_n('Unorm2x4', 'uint8_t', (4, 'u', 15), (4, 'u', 15)); _n('Unorm4x4', 'uint16_t', (4, 'u', 15), (4, 'u', 15), (4, 'u', 15), (4, 'u', 15))
+_n('Unorm1x5_1x6_1x5', 'uint16_t', (5, 'u', 31), (6, 'u', 63), (5, 'u', 31)); _n('Unorm3x5_1x1', 'uint16_t', (5, 'u', 31), (5, 'u', 31), (5, 'u', 31), (1, 'u', 1))
+_n('Unorm2x3_1x2', 'uint8_t', (3, 'u', 7), (3, 'u', 7), (2, 'u', 3))
+# element-wise templates packUnorm<uintN>(vec<L,floatT>) / packSnorm<intN>(vec<L,floatT>)
+for (tn, ct, fdesc, L, ft) in (('tU8x3f', 'uint8_t', U8, 3, 'float'), ('tS8x2f', 'int8_t', S8, 2, 'float'), ('tU16x2f', 'uint16_t', U16, 2, 'float'), ('tS16x4f', 'int16_t', S16, 4, 'float'),
+                               ('tU8x1f', 'uint8_t', U8, 1, 'float'), ('tU8x2d', 'uint8_t', U8, 2, 'double'), ('tS8x2d', 'int8_t', S8, 2, 'double')):
+    pn = 'Unorm' if fdesc[1] == 'u' else 'Snorm'
+    NORM[tn] = Fmt(tn, None, [fdesc] * L, pack='glm::pack%s<%s>' % (pn, ct), unpack='glm::unpack%s<%s>' % (pn, ft), ft=ft, ct=ct)
 
 U = Unit('c06', includes=['glm/glm.hpp', 'glm/packing.hpp', 'glm/gtc/packing.hpp'])
 def _arg(L, c='float', p='a'): return '%s[0]' % p if L == 1 else 'ldv<%d,%s>(%s)' % (L, c, p)
 def _st(L, e, o='o'): return '%s[0] = %s;' % (o, e) if L == 1 else 'stv(%s, %s);' % (o, e)
-for nm, (w, fl) in NORM.items():
-    L = len(fl); P = 'glm::pack' + nm; Q = 'glm::unpack' + nm
-    U.add('pack_' + nm, [('float', L)], [(w, 1)], 'o[0] = %s(%s);' % (P, _arg(L)))
-    U.add('unpack_' + nm, [(w, 1)], [('float', L)], _st(L, '%s(a[0])' % Q))
-    U.add('rt_' + nm, [(w, 1)], [(w, 1)], 'o[0] = %s(%s(a[0]));' % (P, Q))
-    U.add('uru_' + nm, [(w, 1)], [('float', L), ('float', L)], _st(L, '%s(%s(%s(a[0])))' % (Q, P, Q)) + ' ' + _st(L, '%s(a[0])' % Q, 'o2'))
-    U.add('mono_' + nm, [('float', L), ('float', L)], [(w, 2)], 'o[0] = %s(%s); o[1] = %s(%s);' % (P, _arg(L), P, _arg(L, 'float', 'b')))
+for nm, F in NORM.items():
+    L = F.L; P = F.pack; Q = F.unpack; ft = F.ft
+    if F.word is not None:
+        w = F.word
+        U.add('pack_' + nm, [(ft, L)], [(w, 1)], 'o[0] = %s(%s);' % (P, _arg(L)))
+        U.add('unpack_' + nm, [(w, 1)], [(ft, L)], _st(L, '%s(a[0])' % Q))
+        U.add('rt_' + nm, [(w, 1)], [(w, 1)], 'o[0] = %s(%s(a[0]));' % (P, Q))
+        U.add('uru_' + nm, [(w, 1)], [(ft, L), (ft, L)], _st(L, '%s(%s(%s(a[0])))' % (Q, P, Q)) + ' ' + _st(L, '%s(a[0])' % Q, 'o2'))
+        U.add('mono_' + nm, [(ft, L), (ft, L)], [(w, 2)], 'o[0] = %s(%s); o[1] = %s(%s);' % (P, _arg(L), P, _arg(L, 'float', 'b')))
+        U.add('loc_' + nm, [(w, 2)], [(ft, L), (ft, L)], _st(L, '%s(a[0])' % Q) + ' ' + _st(L, '%s(a[1])' % Q, 'o2'))
+    else:
+        ct = F.ct; V = 'ldv<%d,%s>(a)' % (L, ft); C = 'ldv<%d,%s>(a)' % (L, ct)
+        U.add('pack_' + nm, [(ft, L)], [(ct, L)], 'stv(o, %s(%s));' % (P, V))
+        U.add('unpack_' + nm, [(ct, L)], [(ft, L)], 'stv(o, %s(%s));' % (Q, C))
+        U.add('rt_' + nm, [(ct, L)], [(ct, L)], 'stv(o, %s(%s(%s)));' % (P, Q, C))
+        U.add('uru_' + nm, [(ct, L)], [(ft, L), (ft, L)], 'stv(o, %s(%s(%s(%s)))); stv(o2, %s(%s));' % (Q, P, Q, C, Q, C))
+        U.add('mono_' + nm, [(ft, L), (ft, L)], [(ct, L), (ct, L)], 'stv(o, %s(%s)); stv(o2, %s(ldv<%d,%s>(b)));' % (P, V, P, L, ft))
+        U.add('loc_' + nm, [(ct, L), (ct, L)], [(ft, L), (ft, L)], 'stv(o, %s(%s)); stv(o2, %s(ldv<%d,%s>(b)));' % (Q, C, Q, L, ct))
+
+# integer formats: name -> (word ctype, component ctype, L)
+INTF = {'Int2x8': ('int16_t', 'int8_t', 2), 'Uint2x8': ('uint16_t', 'uint8_t', 2), 'Int4x8': ('int32_t', 'int8_t', 4), 'Uint4x8': ('uint32_t', 'uint8_t', 4),
+        'Int2x16': ('int', 'int16_t', 2), 'Int4x16': ('int64_t', 'int16_t', 4), 'Uint2x16': ('unsigned', 'uint16_t', 2), 'Uint4x16': ('uint64_t', 'uint16_t', 4),
+        'Int2x32': ('int64_t', 'int32_t', 2), 'Uint2x32': ('uint64_t', 'uint32_t', 2)}
+for nm, (w, c, L) in INTF.items():
+    U.add('pack_' + nm, [(c, L)], [(w, 1)], 'o[0] = glm::pack%s(ldv<%d,%s>(a));' % (nm, L, c))
+    U.add('unpack_' + nm, [(w, 1)], [(c, L)], 'stv(o, glm::unpack%s(a[0]));' % nm)
+    U.add('rt_' + nm, [(w, 1)], [(w, 1)], 'o[0] = glm::pack%s(glm::unpack%s(a[0]));' % (nm, nm))
+    U.add('ur_' + nm, [(c, L)], [(c, L)], 'stv(o, glm::unpack%s(glm::pack%s(ldv<%d,%s>(a))));' % (nm, nm, L, c))
+for nm, c in (('I3x10_1x2', 'int'), ('U3x10_1x2', 'unsigned')):
+    U.add('pack_' + nm, [(c, 4)], [('uint32_t', 1)], 'o[0] = glm::pack%s(ldv<4,%s>(a));' % (nm, c))
+    U.add('unpack_' + nm, [('uint32_t', 1)], [(c, 4)], 'stv(o, glm::unpack%s(a[0]));' % nm)
+    U.add('rt_' + nm, [('uint32_t', 1)], [('uint32_t', 1)], 'o[0] = glm::pack%s(glm::unpack%s(a[0]));' % (nm, nm))
+    U.add('ur_' + nm, [(c, 4)], [(c, 4)], 'stv(o, glm::unpack%s(glm::pack%s(ldv<4,%s>(a))));' % (nm, nm, c))
+U.add('pack_Double2x32', [('uint32_t', 2)], [('double', 1)], 'o[0] = glm::packDouble2x32(ldv<2,uint32_t>(a));')
+U.add('unpack_Double2x32', [('double', 1)], [('uint32_t', 2)], 'stv(o, glm::unpackDouble2x32(a[0]));')
+U.add('rt_Double2x32', [('double', 1)], [('double', 1)], 'o[0] = glm::packDouble2x32(glm::unpackDouble2x32(a[0]));')
+U.add('ur_Double2x32', [('uint32_t', 2)], [('uint32_t', 2)], 'stv(o, glm::unpackDouble2x32(glm::packDouble2x32(ldv<2,uint32_t>(a))));')
+# half formats (the conversion itself is C07): layout against the scalar functions and re-pack
+HALF = {'Half1x16': ('uint16_t', 1), 'Half2x16': ('uint32_t', 2), 'Half4x16': ('uint64_t', 4)}
+for nm, (w, L) in HALF.items():
+    U.add('rt_' + nm, [(w, 1)], [(w, 1)], 'o[0] = glm::pack%s(glm::unpack%s(a[0]));' % (nm, nm))
+    if L > 1:
+        U.add('lay_' + nm, [('float', L)], [(w, 1), ('uint16_t', L)], 'o[0] = glm::pack%s(ldv<%d,float>(a)); for(int k=0;k<%d;++k) o2[k] = glm::packHalf1x16(a[k]);' % (nm, L, L))
+        U.add('unlay_' + nm, [(w, 1)], [('float', L), ('float', L)], 'stv(o, glm::unpack%s(a[0])); for(int k=0;k<%d;++k) o2[k] = glm::unpackHalf1x16(uint16_t(a[0] >> (16*k)));' % (nm, L))
+for L in (1, 2, 3, 4):
+    U.add('lay_HalfL%d' % L, [('float', L)], [('uint16_t', L), ('uint16_t', L)], 'stv(o, glm::packHalf(ldv<%d,float>(a))); for(int k=0;k<%d;++k) o2[k] = glm::packHalf1x16(a[k]);' % (L, L))
+    U.add('unlay_HalfL%d' % L, [('uint16_t', L)], [('float', L), ('float', L)], 'stv(o, glm::unpackHalf(ldv<%d,uint16_t>(a))); for(int k=0;k<%d;++k) o2[k] = glm::unpackHalf1x16(a[k]);' % (L, L))
+    U.add('rt_HalfL%d' % L, [('uint16_t', L)], [('uint16_t', L)], 'stv(o, glm::packHalf(glm::unpackHalf(ldv<%d,uint16_t>(a))));' % L)
+# small floats
+U.add('pack_F2x11_1x10', [('float', 3)], [('uint32_t', 1)], 'o[0] = glm::packF2x11_1x10(ldv<3,float>(a));')
+U.add('unpack_F2x11_1x10', [('uint32_t', 1)], [('float', 3)], 'stv(o, glm::unpackF2x11_1x10(a[0]));')
+U.add('rt_F2x11_1x10', [('uint32_t', 1)], [('uint32_t', 1)], 'o[0] = glm::packF2x11_1x10(glm::unpackF2x11_1x10(a[0]));')
+U.add('uru_F2x11_1x10', [('uint32_t', 1)], [('float', 3), ('float', 3)], 'stv(o, glm::unpackF2x11_1x10(glm::packF2x11_1x10(glm::unpackF2x11_1x10(a[0])))); stv(o2, glm::unpackF2x11_1x10(a[0]));')
+U.add('pu_F2x11_1x10', [('float', 3)], [('float', 3)], 'stv(o, glm::unpackF2x11_1x10(glm::packF2x11_1x10(ldv<3,float>(a))));')
+U.add('mono_F2x11_1x10', [('float', 3), ('float', 3)], [('uint32_t', 2)], 'o[0] = glm::packF2x11_1x10(ldv<3,float>(a)); o[1] = glm::packF2x11_1x10(ldv<3,float>(b));')
+U.add('pack_F3x9_E1x5', [('float', 3)], [('uint32_t', 1)], 'o[0] = glm::packF3x9_E1x5(ldv<3,float>(a));')
+U.add('unpack_F3x9_E1x5', [('uint32_t', 1)], [('float', 3)], 'stv(o, glm::unpackF3x9_E1x5(a[0]));')
+U.add('rt_F3x9_E1x5', [('uint32_t', 1)], [('uint32_t', 1)], 'o[0] = glm::packF3x9_E1x5(glm::unpackF3x9_E1x5(a[0]));')
+U.add('libm_pow2', [('float', 1)], [('float', 1)], 'o[0] = std::pow(2.0f, a[0]);')
+U.add('libm_log2', [('float', 1)], [('float', 1)], 'o[0] = std::log2(a[0]);')
+for t in ('float', 'double'):
+    U.add('rgbm_pack_' + t, [(t, 3)], [(t, 4)], 'stv(o, glm::packRGBM(ldv<3,%s>(a)));' % t)
+    U.add('rgbm_rt_' + t, [(t, 3)], [(t, 3)], 'stv(o, glm::unpackRGBM(glm::packRGBM(ldv<3,%s>(a))));' % t)
+    U.add('rgbm_unpack_' + t, [(t, 4)], [(t, 3)], 'stv(o, glm::unpackRGBM(ldv<4,%s>(a)));' % t)
 def units(tier): return [U]
 
 # ----------------------------------------------------------------------------- specification helpers (normalised formats)
 def lo_of(kind): return 0.0 if kind == 'u' else -1.0
 def code_formula(xb, bits, kind, scale, rm):
-    """GLSL 4.20 8.4: round(clamp(x, lo, 1) * scale) evaluated in IEEE binary32, converted to the field's integer type"""
-    x = fp32(xb); lo = FPV(lo_of(kind)); hi = FPV(1.0)
+    """GLSL 4.20 8.4: round(clamp(x, lo, 1) * scale) evaluated in the IEEE format of x, converted to the field's integer type"""
+    w = xb.size(); x = fpof(xb); lo = FPV(lo_of(kind), w); hi = FPV(1.0, w)
     cl = z3.If(z3.fpLT(x, lo), lo, z3.If(z3.fpGT(x, hi), hi, x))
-    r = z3.fpRoundToIntegral(rm, z3.fpMul(RNE, cl, FPV(float(scale))))
+    r = z3.fpRoundToIntegral(rm, z3.fpMul(RNE, cl, FPV(float(scale), w)))
     return z3.fpToUBV(RTZ, r, z3.BitVecSort(bits)) if kind == 'u' else z3.fpToSBV(RTZ, r, z3.BitVecSort(bits))
-def code_to_f64(c, kind): return z3.fpUnsignedToFP(RNE, c, F64) if kind == 'u' else z3.fpSignedToFP(RNE, c, F64)
-def code_to_f32(c, kind): return z3.fpUnsignedToFP(RNE, c, F32) if kind == 'u' else z3.fpSignedToFP(RNE, c, F32)
+def code_to_fp(c, kind, srt): return z3.fpUnsignedToFP(RNE, c, srt) if kind == 'u' else z3.fpSignedToFP(RNE, c, srt)
 def slack_of(scale): return 0.5 + scale * 2.0 ** -24
 def halfstep(xb, c, kind, scale, side):
-    """|x*scale - c| <= 1/2 (+ half an ulp of the binary32 product), exact: binary32 x times an integer < 2^16 is exact in binary64, c +- const is exact"""
-    P = z3.fpMul(RNE, z3.fpFPToFP(RNE, fp32(xb), F64), z3.FPVal(float(scale), F64)); C = code_to_f64(c, kind); s = z3.FPVal(slack_of(scale), F64)
+    """|x*scale - c| <= 1/2 (+ half an ulp of the binary32 product). Exact: a binary32 x times an integer < 2^16 is exact in binary64, and c +- const is exact."""
+    P = z3.fpMul(RNE, z3.fpFPToFP(RNE, fp32(xb), F64), z3.FPVal(float(scale), F64)); C = code_to_fp(c, kind, F64); s = z3.FPVal(slack_of(scale), F64)
     return z3.fpLEQ(z3.fpSub(RNE, C, s), P) if side == 'lo' else z3.fpLEQ(P, z3.fpAdd(RNE, C, s))
-def in_range(xb, kind): return z3.And(z3.fpGEQ(fp32(xb), FPV(lo_of(kind))), z3.fpLEQ(fp32(xb), FPV(1.0)))
+def in_range(xb, kind): return z3.And(z3.fpGEQ(fpof(xb), FPV(lo_of(kind), xb.size())), z3.fpLEQ(fpof(xb), FPV(1.0, xb.size())))
 def notnan(xb): return z3.Not(is_nan(xb))
 def maxcode(bits, kind, scale): return z3.BitVecVal(scale, bits)
 def mincode(bits, kind, scale): return z3.BitVecVal(0 if kind == 'u' else -scale, bits)
 def canonical(c, bits, kind): return z3.BoolVal(True) if kind == 'u' else c != z3.BitVecVal(1 << (bits - 1), bits)
-def decode_bound(c, kind, scale, rm):
-    """code/scale rounded in direction rm to binary32, signed formats clamped below at -1"""
-    q = z3.fpDiv(rm, code_to_f32(c, kind), FPV(float(scale)))
-    return q if kind == 'u' else z3.If(z3.fpLT(q, FPV(-1.0)), FPV(-1.0), q)
+def decode_bound(c, kind, scale, rm, w=32):
+    """code/scale rounded in direction rm, signed formats clamped below at -1"""
+    q = z3.fpDiv(rm, code_to_fp(c, kind, FSORT[w]), FPV(float(scale), w))
+    return q if kind == 'u' else z3.If(z3.fpLT(q, FPV(-1.0, w)), FPV(-1.0, w), q)
 def code_le(a, b, kind): return z3.ULE(a, b) if kind == 'u' else a <= b
+def ordv(b):
+    """position of a float pattern in the IEEE total order (+0 == -0) as a signed integer"""
+    w = b.size(); mag = z3.ZeroExt(4, z3.Extract(w - 2, 0, b)); return z3.If(z3.Extract(w - 1, w - 1, b) == 1, -mag, mag)
+def one_bits(w, neg=False): return (0x3f800000 if w == 32 else 0x3ff0000000000000) | ((1 << (w - 1)) if neg else 0)
 
-# exponent classes of a binary32 pattern that cover every non-NaN value; inside one class clamp() is decided by the bits alone
 def exp_classes(kind):
-    cls = [('ge1', lambda xb: z3.And(z3.Extract(31, 31, xb) == 0, z3.UGE(z3.Extract(30, 0, xb), 0x3f800000), z3.ULE(z3.Extract(30, 0, xb), 0x7f800000)))]
-    for e in range(127): cls.append(('e%d' % e, lambda xb, e=e: z3.And(z3.Extract(31, 31, xb) == 0, z3.Extract(30, 23, xb) == e)))
+    """sign/exponent classes of a binary32 pattern that together cover every non-NaN value; inside one class clamp() is decided by the bits alone"""
+    mag = lambda xb: z3.Extract(30, 0, xb); sgn = lambda xb: z3.Extract(31, 31, xb)
+    cls = [('ge1', lambda xb: z3.And(sgn(xb) == 0, z3.UGE(mag(xb), 0x3f800000), z3.ULE(mag(xb), 0x7f800000)))]
+    for e in range(127): cls.append(('e%d' % e, lambda xb, e=e: z3.And(sgn(xb) == 0, z3.Extract(30, 23, xb) == e)))
     if kind == 'u':
-        cls.append(('neg', lambda xb: z3.And(z3.Extract(31, 31, xb) == 1, z3.ULE(z3.Extract(30, 0, xb), 0x7f800000))))
+        cls.append(('neg', lambda xb: z3.And(sgn(xb) == 1, z3.ULE(mag(xb), 0x7f800000))))
     else:
-        cls.append(('le-1', lambda xb: z3.And(z3.Extract(31, 31, xb) == 1, z3.UGE(z3.Extract(30, 0, xb), 0x3f800000), z3.ULE(z3.Extract(30, 0, xb), 0x7f800000))))
-        for e in range(127): cls.append(('n%d' % e, lambda xb, e=e: z3.And(z3.Extract(31, 31, xb) == 1, z3.Extract(30, 23, xb) == e)))
+        cls.append(('le-1', lambda xb: z3.And(sgn(xb) == 1, z3.UGE(mag(xb), 0x3f800000), z3.ULE(mag(xb), 0x7f800000))))
+        for e in range(127): cls.append(('n%d' % e, lambda xb, e=e: z3.And(sgn(xb) == 1, z3.Extract(30, 23, xb) == e)))
     return cls
+def prove_split(S, fname, spec, pre, labels, classes, cls_arg, bounds, timeout=None, side=True):
+    """prove each labelled goal of spec once per class (the classes partition the precondition); replayable like check_fn"""
+    res = sym_call(U, fname); allv = [t for r in res.ins for t in r]; goals = dict(spec(res.ins, res.outs)); hy0 = list(pre(res.ins)) + res.axioms
+    for label in labels:
+        for cn, cf in classes:
+            on = 'c06.%s.%s.%s' % (fname, label, cn)
+            S.prove(on, goal_term(goals[label]), [cf(cls_arg(res.ins))] + hy0, timeout=timeout or S.cap(60, 180), replay=S._replayer(res, (spec, label), pre, U, fname, 'fp', on), vars_=allv,
+                    functions=['w_' + fname], bounds=bounds + '; class ' + cn)
+    if side:
+        groups = {}
+        for kd, cond, d in res.obligations: groups.setdefault((kd, d), []).append(cond)
+        for (kd, d), conds in groups.items():
+            S.prove('c06.%s.%s[%s]' % (fname, kd, d[:50]), z3.Not(z3.Or(*conds)) if len(conds) > 1 else z3.Not(conds[0]), hy0, timeout=S.cap(120, 300), kind=kd, vars_=allv,
+                    replay=S._replayer(res, None, pre, U, fname, 'fp', 'side', side_kind=kd), functions=['w_' + fname], bounds=bounds)
 
 # ----------------------------------------------------------------------------- jobs (normalised formats)
-def job_quant(nm, fields_sel=None):
+def job_quant(nm, sel=None):
     """layout + quantisation formula + clamping of pack"""
-    w, fl = NORM[nm]; offs = offsets(fl); L = len(fl)
-    sel = fields_sel if fields_sel is not None else range(L)
+    F = NORM[nm]; fl = F.fields; sel = list(range(F.L)) if sel is None else sel
     def run(S):
-        small = [k for k in sel if fl[k][0] < 12]; big = [k for k in sel if fl[k][0] >= 12]
+        small = [k for k in sel if fl[k][0] < SPLIT_BITS or F.fw == 64]; big = [k for k in sel if k not in small]
         def spec(i, o, ks=None):
             g = []
             for k in (small if ks is None else ks):
-                b, kind, sc = fl[k]; c = fld(o[0][0], offs[k], b); xb = i[0][k]
+                b, kind, sc = fl[k]; c = F.outcode(o, k); xb = i[0][k]; w = xb.size()
                 g.append(('formula[%d]' % k, z3.Or(c == code_formula(xb, b, kind, sc, RNA), c == code_formula(xb, b, kind, sc, RNE))))
-                g.append(('clamp-high[%d]' % k, z3.Implies(z3.fpGEQ(fp32(xb), FPV(1.0)), c == maxcode(b, kind, sc))))
-                g.append(('clamp-low[%d]' % k, z3.Implies(z3.fpLEQ(fp32(xb), FPV(lo_of(kind))), c == mincode(b, kind, sc))))
+                g.append(('clamp-high[%d]' % k, z3.Implies(z3.fpGEQ(fpof(xb), FPV(1.0, w)), c == maxcode(b, kind, sc))))
+                g.append(('clamp-low[%d]' % k, z3.Implies(z3.fpLEQ(fpof(xb), FPV(lo_of(kind), w)), c == mincode(b, kind, sc))))
             return g
         pre = lambda i: [notnan(x) for x in i[0]]
         def mut(i, o):
-            k = (small or big)[0]; b, kind, sc = fl[k]; c = fld(o[0][0], offs[k], b)
-            return [('scale+1', c == code_formula(i[0][k], b, kind, sc + 1, RNA)), ('next-component', c == code_formula(i[0][(k + 1) % L], b, kind, sc, RNA))] if L > 1 else \
-                   [('scale+1', c == code_formula(i[0][k], b, kind, sc + 1, RNA))]
-        if small or not big:
-            S.check_fn(U, 'pack_' + nm, spec, pre, timeout=S.cap(120, 300), mutant=mut, bounds='every non-NaN component value (2^32 patterns per component), all other components free')
-        if big:
-            # 16-bit fields: the monolithic query does not finish; split the input space of component k into its sign/exponent classes (complete cover of the non-NaN floats)
-            res = sym_call(U, 'pack_' + nm)
-            fn = U.fns['pack_' + nm]; allv = [t for r in res.ins for t in r]
-            for k in big:
-                b, kind, sc = fl[k]
-                specb = lambda i, o, k=k: spec(i, o, [k])
-                for label in ('formula[%d]' % k, 'clamp-high[%d]' % k, 'clamp-low[%d]' % k):
-                    goal = dict(specb(res.ins, res.outs))[label]
-                    for cn, cf in exp_classes(kind):
-                        on = 'c06.pack_%s.%s.%s' % (nm, label, cn)
-                        rp = S._replayer(res, (specb, label), pre, U, 'pack_' + nm, 'fp', on)
-                        S.prove(on, goal, [cf(res.ins[0][k])] + res.axioms, timeout=S.cap(60, 180), replay=rp, vars_=allv, functions=['w_pack_' + nm],
-                                bounds='component %d in sign/exponent class %s (classes cover all non-NaN floats)' % (k, cn))
-                # executor side obligations (float->int conversion in range) per class
-                groups = {}
-                for kd, cond, d in res.obligations: groups.setdefault((kd, d), []).append(cond)
-                for (kd, d), conds in groups.items():
-                    S.prove('c06.pack_%s.%s[%s]' % (nm, kd, d[:50]), z3.Not(z3.Or(*conds)) if len(conds) > 1 else z3.Not(conds[0]), pre(res.ins) + res.axioms, timeout=S.cap(120, 300), kind=kd, vars_=allv,
-                            replay=S._replayer(res, None, pre, U, 'pack_' + nm, 'fp', 'side', side_kind=kd), functions=['w_pack_' + nm], bounds='all non-NaN components')
+            k = (small or big)[0]; b, kind, sc = fl[k]; c = F.outcode(o, k)
+            return [('scale+1', c == code_formula(i[0][k], b, kind, sc + 1, RNA))] + ([('next-component', c == code_formula(i[0][(k + 1) % F.L], b, kind, sc, RNA))] if F.L > 1 else [])
+        S.check_fn(U, 'pack_' + nm, spec, pre, timeout=S.cap(150, 400), mutant=mut if small else None, side=not big, bounds='every non-NaN component value (all bit patterns per component), other components free')
+        for k in big:
+            prove_split(S, 'pack_' + nm, lambda i, o, k=k: spec(i, o, [k]), pre, ['formula[%d]' % k, 'clamp-high[%d]' % k, 'clamp-low[%d]' % k], exp_classes(fl[k][1]), lambda i, k=k: i[0][k],
+                        'component %d split into sign/exponent classes covering all non-NaN floats' % k, side=(k == big[0]))
     return run
 
-def job_halfstep(nm, fields_sel=None):
+def job_halfstep(nm, sel=None):
     """independent of the formula: |x*scale - code| <= 1/2 + half an ulp of the binary32 product, in exact binary64 arithmetic"""
-    w, fl = NORM[nm]; offs = offsets(fl); L = len(fl)
-    sel = fields_sel if fields_sel is not None else range(L)
+    F = NORM[nm]; fl = F.fields; sel = list(range(F.L)) if sel is None else sel
     def run(S):
         for k in sel:
             b, kind, sc = fl[k]
             def spec(i, o, k=k, b=b, kind=kind, sc=sc):
-                c = fld(o[0][0], offs[k], b)
+                c = F.outcode(o, k)
                 return [('within-half-step-lo[%d]' % k, halfstep(i[0][k], c, kind, sc, 'lo')), ('within-half-step-hi[%d]' % k, halfstep(i[0][k], c, kind, sc, 'hi'))]
             if b < 12:
                 pre = lambda i, k=k, kind=kind: [notnan(x) for x in i[0]] + [in_range(i[0][k], kind)]
-                S.check_fn(U, 'pack_' + nm, spec, pre, timeout=S.cap(150, 400), side=False, name='c06.pack_%s.hs%d' % (nm, k), validate=0,
-                           mutant=lambda i, o, k=k, b=b, kind=kind, sc=sc: [('quarter-step', z3.fpLEQ(z3.fpSub(RNE, code_to_f64(fld(o[0][0], offs[k], b), kind), z3.FPVal(0.25, F64)),
-                                                                                 z3.fpMul(RNE, z3.fpFPToFP(RNE, fp32(i[0][k]), F64), z3.FPVal(float(sc), F64))))],
-                           bounds='component %d in [%g,1], slack %g code units' % (k, lo_of(kind), sc * 2.0 ** -24))
+                def mut(i, o, k=k, b=b, kind=kind, sc=sc):
+                    return [('quarter-step', z3.fpLEQ(z3.fpSub(RNE, code_to_fp(F.outcode(o, k), kind, F64), z3.FPVal(0.25, F64)), z3.fpMul(RNE, z3.fpFPToFP(RNE, fp32(i[0][k]), F64), z3.FPVal(float(sc), F64))))]
+                S.check_fn(U, 'pack_' + nm, spec, pre, timeout=S.cap(200, 500), side=False, name='c06.pack_%s.hs%d' % (nm, k), validate=0, mutant=mut,
+                           bounds='component %d in [%g,1]; tolerance 1/2 + %g code units (binary32 rounding of the product)' % (k, lo_of(kind), sc * 2.0 ** -24))
             else:
-                # 16-bit fields: decided per exponent class for |x| < 2^-6 only (larger classes do not finish)
-                for sg in ((0,) if kind == 'u' else (0, 1)):
-                    for e in range(0, HS16_MAXEXP + 1):
-                        pre = lambda i, k=k, e=e, sg=sg: [z3.Extract(31, 31, i[0][k]) == sg, z3.Extract(30, 23, i[0][k]) == e]
-                        S.check_fn(U, 'pack_' + nm, spec, pre, timeout=S.cap(150, 400), side=False, name='c06.pack_%s.hs%d.%s%d' % (nm, k, 'n' if sg else 'e', e), validate=0, witness=False,
-                                   bounds='component %d with sign %d, biased exponent %d' % (k, sg, e))
+                cls = [('%s%d' % ('n' if sg else 'e', e), (lambda xb, e=e, sg=sg: z3.And(z3.Extract(31, 31, xb) == sg, z3.Extract(30, 23, xb) == e))) for sg in ((0,) if kind == 'u' else (0, 1)) for e in range(HS16_MAXEXP + 1)]
+                prove_split(S, 'pack_' + nm, spec, lambda i: [], ['within-half-step-lo[%d]' % k, 'within-half-step-hi[%d]' % k], cls, lambda i, k=k: i[0][k], 'component %d, |x| < 2^%d, by sign/exponent class' % (k, HS16_MAXEXP - 126), timeout=S.cap(150, 400), side=False)
     return run
-HS16_MAXEXP = 120
-
-def job_mono(nm, fields_sel=None):
-    w, fl = NORM[nm]; offs = offsets(fl); L = len(fl)
-    sel = [k for k in (fields_sel if fields_sel is not None else range(L)) if fl[k][0] < 12]
+def job_mono(nm, sel=None):
+    F = NORM[nm]; fl = F.fields
+    sel = [k for k in (range(F.L) if sel is None else sel)]
     def run(S):
-        def spec(i, o):
-            return [('monotone[%d]' % k, code_le(fld(o[0][0], offs[k], fl[k][0]), fld(o[0][1], offs[k], fl[k][0]), fl[k][1])) for k in sel]
-        pre = lambda i: [notnan(x) for x in i[0] + i[1]] + [z3.fpLEQ(fp32(i[0][k]), fp32(i[1][k])) for k in range(L)]
-        S.check_fn(U, 'mono_' + nm, spec, pre, timeout=S.cap(200, 500), side=False, mutant=lambda i, o: [('strict', z3.Not(code_le(fld(o[0][1], offs[sel[0]], fl[sel[0]][0]), fld(o[0][0], offs[sel[0]], fl[sel[0]][0]), fl[sel[0]][1])))],
+        def spec(i, o): return [('monotone[%d]' % k, code_le(F.outcode(o, k, 0), F.outcode(o, k, 1), fl[k][1])) for k in sel]
+        pre = lambda i: [notnan(x) for x in i[0] + i[1]] + [z3.fpLEQ(fpof(i[0][k]), fpof(i[1][k])) for k in range(F.L)]
+        k0 = sel[0]
+        S.check_fn(U, 'mono_' + nm, spec, pre, timeout=S.cap(200, 600), side=False, mutant=lambda i, o: [('strict', z3.Not(code_le(F.outcode(o, k0, 1), F.outcode(o, k0, 0), fl[k0][1])))],
                    bounds='all pairs of non-NaN vectors with x_k <= y_k')
     return run
 
-def job_repack(nm, fields_sel=None):
-    w, fl = NORM[nm]; offs = offsets(fl); L = len(fl)
-    sel = fields_sel if fields_sel is not None else range(L)
+def code_classes(bits, nsplit):
+    """partition of the codes of one field by their top nsplit bits"""
+    if nsplit == 0: return [('all', lambda c: z3.BoolVal(True))]
+    return [('top%d' % t, lambda c, t=t: z3.Extract(bits - 1, bits - nsplit, c) == t) for t in range(1 << nsplit)]
+def job_repack(nm, sel=None):
+    F = NORM[nm]; fl = F.fields; sel = list(range(F.L)) if sel is None else sel
     def run(S):
-        def spec(i, o):
+        small = [k for k in sel if fl[k][0] < 12]; big = [k for k in sel if k not in small]
+        def spec(i, o, ks=None):
             g = []
-            for k in sel:
-                b, kind, sc = fl[k]; c = fld(i[0][0], offs[k], b); r = fld(o[0][0], offs[k], b)
+            for k in (small if ks is None else ks):
+                b, kind, sc = fl[k]; c = F.incode(i, k); r = F.outcode(o, k)
                 g.append(('repack[%d]' % k, z3.Implies(canonical(c, b, kind), r == c)))
                 if kind == 's': g.append(('most-negative-to-min[%d]' % k, z3.Implies(z3.Not(canonical(c, b, kind)), r == mincode(b, kind, sc))))
             return g
         def mut(i, o):
-            k = sel[0]; b, kind, sc = fl[k]; c = fld(i[0][0], offs[k], b); r = fld(o[0][0], offs[k], b)
+            k = sel[0]; b, kind, sc = fl[k]; c = F.incode(i, k); r = F.outcode(o, k)
             return [('also-noncanonical', r == c)] if kind == 's' else [('plus-one', r == c + 1)]
-        S.check_fn(U, 'rt_' + nm, spec, timeout=S.cap(200, 500), mutant=mut, bounds='every word (all 2^%d), per field' % ct_bits(w))
-        def spec2(i, o): return [('unpack-pack-unpack[%d]' % k, o[0][k].bits == o[1][k].bits) for k in sel]
-        S.check_fn(U, 'uru_' + nm, spec2, timeout=S.cap(200, 500), bounds='every word (all 2^%d), per component' % ct_bits(w))
+        S.check_fn(U, 'rt_' + nm, spec, timeout=S.cap(200, 500), mutant=mut if small else None, bounds='every word (all 2^%d), per field' % F.wbits())
+        for k in big:
+            labels = ['repack[%d]' % k] + (['most-negative-to-min[%d]' % k] if fl[k][1] == 's' else [])
+            prove_split(S, 'rt_' + nm, lambda i, o, k=k: spec(i, o, [k]), lambda i: [], labels, code_classes(fl[k][0], 2), lambda i, k=k: F.incode(i, k), 'every word, field %d split by its top 2 bits' % k, timeout=S.cap(200, 500), side=False)
+        # unpack(pack(unpack(p))) == unpack(p)
+        def spec2(i, o, ks=None): return [('unpack-pack-unpack[%d]' % k, o[0][k].bits == o[1][k].bits) for k in (small if ks is None else ks)]
+        if small: S.check_fn(U, 'uru_' + nm, spec2, timeout=S.cap(200, 500), bounds='every word (all 2^%d), per component' % F.wbits())
+        if big:
+            # 16-bit fields: the monolithic query needs > 3 min. Lemma chain: (a) re-pack keeps field k for canonical codes (above), (b) component k of unpack is a function of field k only (below),
+            # hence unpack(pack(unpack(p)))_k == unpack(p)_k for canonical codes; (c) the non-canonical code directly.
+            def loc(i, o): return [('unpack-depends-on-field-only[%d]' % k, o[0][k].bits == o[1][k].bits) for k in big]
+            def wordfield(i, j, k): return i[j][k] if F.word is None else fld(i[0][j], F.offs[k], fl[k][0])
+            S.check_fn(U, 'loc_' + nm, loc, lambda i: [wordfield(i, 0, k) == wordfield(i, 1, k) for k in big], timeout=S.cap(100, 300), side=False, bounds='all pairs of words that agree on the field')
+            if fl[big[0]][1] == 's':
+                for k in big:
+                    S.check_fn(U, 'uru_' + nm, lambda i, o, k=k: spec2(i, o, [k]), lambda i, k=k: [z3.Not(canonical(F.incode(i, k), fl[k][0], fl[k][1]))], name='c06.uru_%s.noncanonical%d' % (nm, k),
+                               timeout=S.cap(100, 300), side=False, validate=0, bounds='the non-canonical (most negative) code of field %d' % k)
     return run
-
-def ordv(b):
-    """position of a binary32 pattern in the IEEE total order (+0 == -0) as a 35-bit signed integer"""
-    mag = z3.ZeroExt(4, z3.Extract(30, 0, b)); return z3.If(z3.Extract(31, 31, b) == 1, -mag, mag)
 def job_decode(nm):
-    w, fl = NORM[nm]; offs = offsets(fl); L = len(fl)
+    F = NORM[nm]; fl = F.fields; w = F.fw
     def run(S):
         def spec(i, o):
             g = []
-            for k in range(L):
-                b, kind, sc = fl[k]; c = fld(i[0][0], offs[k], b); ob = o[0][k].bits
-                g.append(('decode-lower[%d]' % k, ordv(z3.fpToIEEEBV(decode_bound(c, kind, sc, RTN))) - 1 <= ordv(ob)))
-                g.append(('decode-upper[%d]' % k, ordv(ob) <= ordv(z3.fpToIEEEBV(decode_bound(c, kind, sc, RTP))) + 1))
-                g.append(('decode-one[%d]' % k, z3.Implies(c == maxcode(b, kind, sc), ob == 0x3f800000)))
+            for k in range(F.L):
+                b, kind, sc = fl[k]; c = F.incode(i, k); ob = o[0][k].bits
+                g.append(('decode-lower[%d]' % k, ordv(z3.fpToIEEEBV(decode_bound(c, kind, sc, RTN, w))) - 1 <= ordv(ob)))
+                g.append(('decode-upper[%d]' % k, ordv(ob) <= ordv(z3.fpToIEEEBV(decode_bound(c, kind, sc, RTP, w))) + 1))
+                g.append(('decode-one[%d]' % k, z3.Implies(c == maxcode(b, kind, sc), ob == one_bits(w))))
                 g.append(('decode-zero[%d]' % k, z3.Implies(c == 0, ob == 0)))
-                if kind == 's': g.append(('decode-minus-one[%d]' % k, z3.Implies(z3.Or(c == mincode(b, kind, sc), z3.Not(canonical(c, b, kind))), ob == 0xbf800000)))
+                if kind == 's': g.append(('decode-minus-one[%d]' % k, z3.Implies(z3.Or(c == mincode(b, kind, sc), z3.Not(canonical(c, b, kind))), ob == one_bits(w, True))))
                 g.append(('decode-not-nan[%d]' % k, z3.Not(is_nan(ob))))
             return g
         def mut(i, o):
-            b, kind, sc = fl[0]; c = fld(i[0][0], offs[0], b)
-            return [('scale+1', ordv(o[0][0].bits) <= ordv(z3.fpToIEEEBV(z3.fpDiv(RTP, code_to_f32(c, kind), FPV(float(sc + 1))))) + 1)] + \
-                   ([('next-field', ordv(z3.fpToIEEEBV(decode_bound(fld(i[0][0], offs[1], fl[1][0]), fl[1][1], fl[1][2], RTN))) - 1 <= ordv(o[0][0].bits))] if L > 1 else [])
+            b, kind, sc = fl[0]; c = F.incode(i, 0)
+            return [('scale+1', ordv(o[0][0].bits) <= ordv(z3.fpToIEEEBV(z3.fpDiv(RTP, code_to_fp(c, kind, FSORT[w]), FPV(float(sc + 1), w)))) + 1)] + \
+                   ([('next-field', ordv(z3.fpToIEEEBV(decode_bound(F.incode(i, 1), fl[1][1], fl[1][2], RTN, w))) - 1 <= ordv(o[0][0].bits))] if F.L > 1 else [])
         S.check_fn(U, 'unpack_' + nm, spec, timeout=S.cap(120, 300), mutant=mut,
-                   bounds='every word; component k within one binary32 ulp of the directed roundings of field_k/scale (signed: max(.,-1)); end codes decode to exactly 0, 1, -1')
+                   bounds='every word; component k within one ulp of the directed roundings of field_k/scale (signed: max(.,-1)); end codes decode to exactly 0, 1, -1')
+    return run
+
+# ----------------------------------------------------------------------------- integer / double / half formats: layout and lossless round trips
+def ext(x, n, signed): return z3.SignExt(n - x.size(), x) if signed else z3.ZeroExt(n - x.size(), x)
+def job_int(nm):
+    w, c, L = INTF[nm]; b = ct_bits(c)
+    def run(S):
+        S.check_fn(U, 'pack_' + nm, lambda i, o: [('field[%d]' % k, fld(o[0][0], b * k, b) == i[0][k]) for k in range(L)], mutant=lambda i, o: [('reversed', fld(o[0][0], 0, b) == i[0][L - 1])], bounds='all component values')
+        S.check_fn(U, 'unpack_' + nm, lambda i, o: [('component[%d]' % k, o[0][k] == fld(i[0][0], b * k, b)) for k in range(L)], bounds='all words')
+        S.check_fn(U, 'rt_' + nm, lambda i, o: [('pack(unpack(p))==p', o[0][0] == i[0][0])], bounds='all words')
+        S.check_fn(U, 'ur_' + nm, lambda i, o: [('unpack(pack(v))==v[%d]' % k, o[0][k] == i[0][k]) for k in range(L)], bounds='all component values')
+    return run
+def job_3x10(nm):
+    sg = nm[0] == 'I'; offs = [0, 10, 20, 30]; bits = [10, 10, 10, 2]
+    def run(S):
+        S.check_fn(U, 'pack_' + nm, lambda i, o: [('field[%d]' % k, fld(o[0][0], offs[k], bits[k]) == z3.Extract(bits[k] - 1, 0, i[0][k])) for k in range(4)],
+                   mutant=lambda i, o: [('reversed', fld(o[0][0], 0, 10) == z3.Extract(9, 0, i[0][2]))], bounds='all component values (taken modulo the field width)')
+        S.check_fn(U, 'unpack_' + nm, lambda i, o: [('component[%d]' % k, o[0][k] == ext(fld(i[0][0], offs[k], bits[k]), 32, sg)) for k in range(4)],
+                   mutant=lambda i, o: [('other-extension', o[0][0] == ext(fld(i[0][0], 0, 10), 32, not sg))], bounds='all words; %s extension' % ('sign' if sg else 'zero'))
+        S.check_fn(U, 'rt_' + nm, lambda i, o: [('pack(unpack(p))==p', o[0][0] == i[0][0])], bounds='all words')
+        def inr(i): return [(z3.And(i[0][k] >= -(1 << (bits[k] - 1)), i[0][k] < (1 << (bits[k] - 1))) if sg else z3.ULT(i[0][k], 1 << bits[k])) for k in range(4)]
+        S.check_fn(U, 'ur_' + nm, lambda i, o: [('unpack(pack(v))==v[%d]' % k, o[0][k] == i[0][k]) for k in range(4)], inr, bounds='all component values representable in their field')
+    return run
+def job_double(S):
+    S.check_fn(U, 'pack_Double2x32', lambda i, o: [('low-word', z3.Extract(31, 0, o[0][0].bits) == i[0][0]), ('high-word', z3.Extract(63, 32, o[0][0].bits) == i[0][1])], bounds='all pairs of words')
+    S.check_fn(U, 'unpack_Double2x32', lambda i, o: [('component0', o[0][0] == z3.Extract(31, 0, i[0][0])), ('component1', o[0][1] == z3.Extract(63, 32, i[0][0]))], bounds='all 2^64 double patterns incl. NaN payloads')
+    S.check_fn(U, 'rt_Double2x32', lambda i, o: [('pack(unpack(d))==d', o[0][0].bits == i[0][0])], bounds='all 2^64 double patterns')
+    S.check_fn(U, 'ur_Double2x32', lambda i, o: [('unpack(pack(v))==v[%d]' % k, o[0][k] == i[0][k]) for k in range(2)], bounds='all pairs of words')
+def job_half(S):
+    for nm, (w, L) in HALF.items():
+        S.check_fn(U, 'rt_' + nm, lambda i, o, L=L: [('repack[%d]' % k, fld(o[0][0], 16 * k, 16) == fld(i[0][0], 16 * k, 16)) for k in range(L)], unwind=12, bounds='every word incl. Inf/NaN codes')
+        if L > 1:
+            S.check_fn(U, 'lay_' + nm, lambda i, o, L=L: [('field[%d]==packHalf1x16(v[%d])' % (k, k), fld(o[0][0], 16 * k, 16) == o[1][k]) for k in range(L)], unwind=12,
+                       mutant=lambda i, o, L=L: [('reversed', fld(o[0][0], 0, 16) == o[1][L - 1])], bounds='all float vectors')
+            S.check_fn(U, 'unlay_' + nm, lambda i, o, L=L: [('component[%d]==unpackHalf1x16(field[%d])' % (k, k), o[0][k].bits == o[1][k].bits) for k in range(L)], unwind=12, bounds='all words')
+def job_halfL(L):
+    def run(S):
+        S.check_fn(U, 'lay_HalfL%d' % L, lambda i, o: [('component[%d]' % k, o[0][k] == o[1][k]) for k in range(L)], unwind=12, bounds='all float vectors; element k == packHalf1x16(v[k])')
+        S.check_fn(U, 'unlay_HalfL%d' % L, lambda i, o: [('component[%d]' % k, o[0][k].bits == o[1][k].bits) for k in range(L)], unwind=12, bounds='all u16 vectors; element k == unpackHalf1x16(p[k])')
+        S.check_fn(U, 'rt_HalfL%d' % L, lambda i, o: [('repack[%d]' % k, o[0][k] == i[0][k]) for k in range(L)], unwind=12, bounds='all u16 vectors')
+    return run
+
+# ----------------------------------------------------------------------------- unsigned small floats: F2x11_1x10 (5-bit exponent, bias 15, 6- resp. 5-bit mantissa, no sign)
+SF = [(0, 11, 6), (11, 11, 6), (22, 10, 5)]      # (offset, bits, mantissa bits)
+def sf_e(c, mb): return z3.Extract(mb + 4, mb, c)
+def sf_m(c, mb): return z3.Extract(mb - 1, 0, c)
+def sf_sort(mb): return z3.FPSort(5, mb + 1)
+def sf_decode_bits(c, mb):
+    """binary32 pattern of the value of code c read as an IEEE-style (5, mb+1) float with sign 0 (widening is exact) - SMT-LIB to_fp as oracle"""
+    return z3.fpToIEEEBV(z3.fpFPToFP(RNE, z3.fpBVToFP(z3.Concat(z3.BitVecVal(0, 1), c), sf_sort(mb)), F32))
+def sf_encode(xb, mb):
+    """code of x truncated (round toward zero) to the (5, mb+1) format, sign dropped"""
+    return z3.Extract(mb + 4, 0, z3.fpToIEEEBV(z3.fpFPToFP(RTZ, fp32(xb), sf_sort(mb))))
+def sf_minval(mb): return 2.0 ** -15 * (1 + 2.0 ** -mb)       # value of code 1 in glm's own reading of exponent-0 codes (2^-15 * (1 + m/2^mb))
+def sf_inf(mb): return 31 << mb
+def sf_maxfinite(mb): return (31 << mb) - 1
+def job_f2x11_decode(S):
+    def spec(i, o):
+        g = []
+        for k, (off, b, mb) in enumerate(SF):
+            c = fld(i[0][0], off, b); e = sf_e(c, mb); m = sf_m(c, mb); ob = o[0][k].bits
+            g.append(('decode-normal%d' % k, z3.Implies(z3.And(z3.UGE(e, 1), z3.ULE(e, 30)), ob == sf_decode_bits(c, mb))))
+            g.append(('decode-zero%d' % k, z3.Implies(c == 0, ob == 0)))
+            g.append(('decode-inf%d' % k, z3.Implies(z3.And(e == 31, m == 0), ob == 0x7f800000)))
+            g.append(('decode-nan%d' % k, z3.Implies(z3.And(e == 31, m != 0), is_nan(ob))))
+            g.append(('decode-subnormal%d' % k, z3.Implies(z3.And(e == 0, m != 0), z3.And(z3.fpGT(fp32(ob), FPV(0.0)), z3.fpLT(fp32(ob), FPV(2.0 ** -14))))))
+        return g
+    def mut(i, o):
+        return [('next-field', z3.Implies(z3.And(z3.UGE(sf_e(fld(i[0][0], 11, 11), 6), 1), z3.ULE(sf_e(fld(i[0][0], 11, 11), 6), 30)), o[0][0].bits == sf_decode_bits(fld(i[0][0], 11, 11), 6)))]
+    S.check_fn(U, 'unpack_F2x11_1x10', spec, mutant=mut, known=['KF-C06-F2x11-unpack-infnan', 'KF-C06-F2x11-unpack-zero-unmasked'], bounds='every 32-bit word; per field')
+def job_f2x11_pack(S):
+    def spec(i, o):
+        g = []
+        for k, (off, b, mb) in enumerate(SF):
+            xb = i[0][k]; x = fp32(xb); c = fld(o[0][0], off, b)
+            g.append(('pack-normal%d' % k, z3.Implies(z3.And(z3.fpGEQ(x, FPV(2.0 ** -14)), z3.fpLT(x, FPV(65536.0))), c == sf_encode(xb, mb))))
+            g.append(('pack-zero%d' % k, z3.Implies(z3.fpIsZero(x), c == 0)))
+            g.append(('pack-inf%d' % k, z3.Implies(xb == 0x7f800000, c == sf_inf(mb))))
+            g.append(('pack-nan%d' % k, z3.Implies(z3.fpIsNaN(x), z3.And(sf_e(c, mb) == 31, sf_m(c, mb) != 0))))
+            g.append(('pack-negative%d' % k, z3.Implies(z3.fpLT(x, FPV(0.0)), c == 0)))
+            g.append(('pack-subminimum%d' % k, z3.Implies(z3.And(z3.fpGT(x, FPV(0.0)), z3.fpLT(x, FPV(sf_minval(mb)))), z3.ULE(c, 1))))
+            g.append(('pack-overflow%d' % k, z3.Implies(z3.And(z3.fpGEQ(x, FPV(65536.0)), z3.Not(z3.fpIsInf(x))), z3.Or(c == sf_maxfinite(mb), c == sf_inf(mb)))))
+        return g
+    def mut(i, o):
+        return [('round-to-nearest', z3.Implies(z3.And(z3.fpGEQ(fp32(i[0][0]), FPV(2.0 ** -14)), z3.fpLT(fp32(i[0][0]), FPV(65000.0))),
+                                                fld(o[0][0], 0, 11) == z3.Extract(10, 0, z3.fpToIEEEBV(z3.fpFPToFP(RNE, fp32(i[0][0]), sf_sort(6))))))]
+    S.check_fn(U, 'pack_F2x11_1x10', spec, mutant=mut, known=['KF-C06-F2x11-pack-negative', 'KF-C06-F2x11-pack-subminimum', 'KF-C06-F2x11-pack-overflow'], bounds='every float pattern per component (incl. NaN, Inf, negatives, subnormals)')
+    # accuracy through glm's own decoder: truncation within one mantissa step (covers the exponent-0 codes, which glm reads as 2^-15*(1+m/2^mb))
+    def acc(i, o):
+        g = []
+        for k, (off, b, mb) in enumerate(SF):
+            xb = i[0][k]; rb = o[0][k].bits
+            inr = z3.And(z3.fpGEQ(fp32(xb), FPV(sf_minval(mb))), z3.fpLT(fp32(xb), FPV(65536.0)))
+            g.append(('roundtrip-not-above%d' % k, z3.Implies(inr, z3.ULE(rb, xb))))
+            g.append(('roundtrip-within-one-step%d' % k, z3.Implies(inr, z3.ULT(xb - rb, 1 << (23 - mb)))))
+        return g
+    S.check_fn(U, 'pu_F2x11_1x10', acc, bounds='components in [smallest positive code value, 65536); other components free')
+def sf_inrange(xb, mb): return z3.Or(z3.fpIsZero(fp32(xb)), z3.And(z3.fpGEQ(fp32(xb), FPV(2.0 ** -15)), z3.fpLT(fp32(xb), FPV(65536.0))))
+def job_f2x11_mono(S):
+    def spec(i, o): return [('monotone%d' % k, z3.ULE(fld(o[0][0], off, b), fld(o[0][1], off, b))) for k, (off, b, mb) in enumerate(SF)]
+    pre = lambda i: [sf_inrange(i[0][k], SF[k][2]) for k in range(3)] + [sf_inrange(i[1][k], SF[k][2]) for k in range(3)] + [z3.fpLEQ(fp32(i[0][k]), fp32(i[1][k])) for k in range(3)]
+    S.check_fn(U, 'mono_F2x11_1x10', spec, pre, bounds='all pairs x_k <= y_k with both in {0} u [2^-15, 65536)')
+def job_f2x11_repack(S):
+    def spec(i, o):
+        return [('repack%d' % k, z3.Implies(z3.ULE(sf_e(fld(i[0][0], off, b), mb), 30), fld(o[0][0], off, b) == fld(i[0][0], off, b))) for k, (off, b, mb) in enumerate(SF)]
+    S.check_fn(U, 'rt_F2x11_1x10', spec, mutant=lambda i, o: [('also-inf-nan', fld(o[0][0], 0, 11) == fld(i[0][0], 0, 11))], bounds='every 32-bit word; fields holding a finite code')
+    S.check_fn(U, 'uru_F2x11_1x10', lambda i, o: [('unpack-pack-unpack%d' % k, same_float(o[0][k], o[1][k])) for k in range(3)], known=['KF-C06-F2x11-uru-infnan'], bounds='every 32-bit word')
+
+def _sf_e5(xb): return z3.Extract(27, 23, xb) + 16            # (biased exponent - 112) mod 32: the exponent field glm's float2packed11/10 produces
+def _sf_mt(xb, mb): return z3.Extract(22, 23 - mb, xb)
+def _reg_neg(res, k):
+    xb = res.ins[0][k]; mb = SF[k][2]
+    return z3.And(z3.fpLT(fp32(xb), FPV(0.0)), z3.Not(z3.And(z3.Not(z3.fpIsInf(fp32(xb))), _sf_e5(xb) == 0, _sf_mt(xb, mb) == 0)))
+def _reg_tiny(res, k):
+    xb = res.ins[0][k]; mb = SF[k][2]
+    return z3.And(z3.fpGT(fp32(xb), FPV(0.0)), z3.fpLT(fp32(xb), FPV(2.0 ** -15)), z3.Not(z3.And(_sf_e5(xb) == 0, z3.ULE(_sf_mt(xb, mb), 1))))
+def _reg_ovf(res, k):
+    xb = res.ins[0][k]; mb = SF[k][2]
+    return z3.And(z3.fpGEQ(fp32(xb), FPV(65536.0)), z3.Not(z3.fpIsInf(fp32(xb))), z3.Not(z3.Or(z3.And(_sf_e5(xb) == 31, _sf_mt(xb, mb) == 0), z3.And(_sf_e5(xb) == 30, _sf_mt(xb, mb) == (1 << mb) - 1))))
+REGIONS = {'f2x11_negative': _reg_neg, 'f2x11_subminimum': _reg_tiny, 'f2x11_overflow': _reg_ovf}
+
+# ----------------------------------------------------------------------------- RGBM (rounding-erased)
+def job_rgbm(t):
+    # the constants 1/6 and 1e-6 are the rounded machine constants, so identities hold up to their relative rounding error: tolerance 2^-22 (float) / 2^-51 (double)
+    eps = z3.RealVal(2) ** (-22 if t == 'float' else -51); rabs = lambda x: z3.If(x >= 0, x, -x)
+    def run(S):
+        S.check_fn(U, 'rgbm_rt_' + t, lambda i, o: [('unpack(pack(rgb))==rgb[%d]' % k, RGoal('le', rabs(o[0][k].r - i[0][k]), eps * rabs(i[0][k]))) for k in range(3)], mode='real',
+                   bounds='rounding-erased arithmetic with the machine constants; all real rgb; relative tolerance 2^%d' % (-22 if t == 'float' else -51), timeout=S.cap(60, 200),
+                   mutant=lambda i, o: [('exact', REq(o[0][0].r, i[0][0]))])
+        def spec(i, o):
+            a = o[0][3].r; mx = z3.If(i[0][0] >= i[0][1], i[0][0], i[0][1]); mx = z3.If(mx >= i[0][2], mx, i[0][2])
+            return [('alpha-multiple-of-1/255', REq(a * 255, z3.ToReal(z3.ToInt(a * 255)))), ('alpha>=1/255', RGoal('ge', a * 255, z3.RealVal(1))), ('alpha<=1', RGoal('le', a, z3.RealVal(1))),
+                    ('alpha>=max/6', RGoal('ge', a * 6 * (1 + eps), mx)), ('alpha-minimal', RGoal('lt', (a * 255 - 1) * 6, z3.If(mx * (1 + eps) * 255 >= 6 * 255 * z3.RealVal('1/1000000'), mx * (1 + eps) * 255, 6 * 255 * z3.RealVal('1/999999'))))] + \
+                   [('component<=1[%d]' % k, RGoal('le', o[0][k].r, 1 + eps)) for k in range(3)] + [('component>=0[%d]' % k, RGoal('ge', o[0][k].r, z3.RealVal(0))) for k in range(3)]
+        S.check_fn(U, 'rgbm_pack_' + t, spec, lambda i: [z3.And(x >= 0, x <= 6) for x in i[0]], mode='real', bounds='rounding-erased; rgb in [0,6]^3 (the encodable range)', timeout=S.cap(60, 200))
+        S.check_fn(U, 'rgbm_unpack_' + t, lambda i, o: [('rgb[%d]==6*m*c' % k, REq(o[0][k].r, 6 * i[0][3] * i[0][k])) for k in range(3)], mode='real', bounds='rounding-erased; all real rgbm', timeout=S.cap(60, 200))
     return run
 
 def jobs(tier):
     q = tier == 'quick'; J = []
-    for nm in NORM:
-        J.append(('quant_' + nm, job_quant(nm))); J.append(('halfstep_' + nm, job_halfstep(nm))); J.append(('mono_' + nm, job_mono(nm)))
-        J.append(('repack_' + nm, job_repack(nm))); J.append(('decode_' + nm, job_decode(nm)))
+    for nm, F in NORM.items():
+        mb = max(b for b, _, _ in F.fields)
+        J.append(('quant_' + nm, job_quant(nm))); J.append(('decode_' + nm, job_decode(nm)))
+        if F.fw == 32: J.append(('halfstep_' + nm, job_halfstep(nm)))
+        if mb < 12: J.append(('mono_' + nm, job_mono(nm, [k for k in range(F.L) if F.fields[k][0] < 12])))
+        J.append(('repack_' + nm, job_repack(nm)))
+    for nm in INTF: J.append(('int_' + nm, job_int(nm)))
+    for nm in ('I3x10_1x2', 'U3x10_1x2'): J.append(('int_' + nm, job_3x10(nm)))
+    J.append(('double2x32', job_double)); J.append(('half', job_half))
+    for L in (1, 2, 3, 4): J.append(('halfL%d' % L, job_halfL(L)))
+    for t in ('float', 'double'): J.append(('rgbm_' + t, job_rgbm(t)))
+    J += [('f2x11_decode', job_f2x11_decode), ('f2x11_pack', job_f2x11_pack), ('f2x11_mono', job_f2x11_mono), ('f2x11_repack', job_f2x11_repack)]
     return J
